@@ -70,15 +70,15 @@ def check_int_content(content: bytes, with_header: bool) -> t.Optional[t.Tuple[s
     return None
 
 
-def check_tag(cls: int, constructed: bool, num: int) -> t.Optional[t.Tuple[str, str]]:
+def check_tag(cls: int, constructed: bool, num: int, content: bytes = b"v") -> t.Optional[t.Tuple[str, str]]:
     tag = asn1.ASN1Tag(asn1.TagClass(cls), asn1.TypeTagNumber(num) if cls == 0 else num, constructed)
     w = asn1.ASN1Writer()
     try:
-        w.write_octet_string(b"v", tag=tag)
+        w.write_octet_string(content, tag=tag)
         got = bytes(w.get_data())
     except BaseException as e:
         return (f"tag-write-raises:{K.exc_key(e)}", f"writing tag {cls}/{num}/{constructed} raised {type(e).__name__}: {e}")
-    exp = ber.enc_ident(cls, constructed, num) + b"\x01v"
+    exp = ber.enc_ident(cls, constructed, num) + bytes([len(content)]) + content
     if got != exp:
         return (f"tag-write-differs:{'high' if num >= 31 else 'low'}", f"tag {cls}/{num}/{constructed} written as {got.hex()}, expected {exp.hex()}")
     r = _reader(exp + b"\x04\x01z")
@@ -87,9 +87,9 @@ def check_tag(cls: int, constructed: bool, num: int) -> t.Optional[t.Tuple[str, 
         v = r.read_octet_string(tag=tag)
     except BaseException as e:
         return (f"tag-read-raises:{K.exc_key(e)}", f"reading tag {exp.hex()} raised {type(e).__name__}: {e}")
-    if (int(h.tag.tag_class), int(h.tag.tag_number), bool(h.tag.is_constructed)) != (cls, num, constructed) or h.length != 1 or h.tag_length != len(exp) - 1:
+    if (int(h.tag.tag_class), int(h.tag.tag_number), bool(h.tag.is_constructed)) != (cls, num, constructed) or h.length != len(content) or h.tag_length != len(exp) - len(content):
         return (f"tag-read-differs:{'high' if num >= 31 else 'low'}", f"tag {exp.hex()} read back as {h}")
-    if v != b"v" or _rest(r) != b"\x04\x01z":
+    if v != content or _rest(r) != b"\x04\x01z":
         return ("tag-read-consumed", f"value after tag {exp.hex()} read as {v!r}")
     return None
 
@@ -263,6 +263,72 @@ def check_tree(tr: t.Any) -> t.Optional[t.Tuple[str, str]]:
     return None
 
 
+def check_push_tag(method: str, cls: int, constructed: bool, num: int) -> t.Optional[t.Tuple[str, str]]:
+    """push_sequence / push_set (and the _of aliases) with an explicit tag: the tag is written as given, in either form,
+    and the value is read back with the same tag."""
+    tag = asn1.ASN1Tag(asn1.TagClass(cls), asn1.TypeTagNumber(num) if cls == 0 else num, constructed)
+    w = asn1.ASN1Writer()
+    try:
+        with getattr(w, method)(tag=tag) as inner:
+            inner.write_integer(5)
+        got = bytes(w.get_data())
+    except BaseException as e:
+        return (f"push-tag-write-raises:{method}:{K.exc_key(e)}", f"{method}(tag={cls}/{num}/{constructed}) raised {type(e).__name__}: {e}")
+    exp = ber.enc_ident(cls, constructed, num) + b"\x03\x02\x01\x05"
+    if got != exp:
+        return (f"push-tag-write-differs:{method}:{'constructed' if constructed else 'primitive'}", f"{method}(tag={cls}/{num}/{constructed}) wrote {got.hex()}, expected {exp.hex()}")
+    r = _reader(exp + b"\x04\x01z")
+    try:
+        h = r.peek_header()
+        inner_r = (r.read_set if "set" in method else r.read_sequence)(tag=tag)
+        v = inner_r.read_integer()
+    except BaseException as e:
+        return (f"push-tag-read-raises:{method}:{K.exc_key(e)}", f"reading {exp.hex()} back with tag {cls}/{num}/{constructed} raised {type(e).__name__}: {e}")
+    if (int(h.tag.tag_class), int(h.tag.tag_number), bool(h.tag.is_constructed)) != (cls, num, constructed) or v != 5 or _rest(r) != b"\x04\x01z":
+        return (f"push-tag-read-differs:{method}", f"{exp.hex()} read back as {h}, value {v}")
+    return None
+
+
+def check_forest(trs: t.Sequence[t.Any]) -> t.Optional[t.Tuple[str, str]]:
+    """Many values one after the other through ONE writer and ONE reader."""
+    w = asn1.ASN1Writer()
+    try:
+        for tr in trs:
+            _write(w, tr)
+        got = bytes(w.get_data())
+    except BaseException as e:
+        return (f"forest-write-raises:{K.exc_key(e)}", f"writing {len(trs)} values in a row raised {type(e).__name__}: {e}")
+    exp = b"".join(ber.encode(_node(tr)) for tr in trs)
+    if got != exp:
+        return ("forest-write-differs", f"{len(trs)} values in a row written differently from the reference")
+    r = _reader(exp + b"\x05\x00")
+    try:
+        back = [_read(r, tr) for tr in trs]
+    except BaseException as e:
+        return (f"forest-read-raises:{K.exc_key(e)}", f"reading {len(trs)} values in a row from one reader raised {type(e).__name__}: {e}")
+    if back != list(trs) or _rest(r) != b"\x05\x00":
+        return ("forest-read-differs", f"{len(trs)} values in a row read back differently")
+    return None
+
+
+def big_shapes() -> t.List[t.Tuple[str, t.Any]]:
+    """Beyond depth 3 / fan-out 2: wide (101..1500 children, constructed and primitive), deep (150, 300 levels), and many
+    top-level values through one reader."""
+    out: t.List[t.Tuple[str, t.Any]] = []
+    kids = [("seq", ()), ("set", (("int", 1),)), ("int", -1), ("seq", (("octets", b"x"), ("set", ())))]
+    for n in (101, 150, 300, 1500):
+        for kind in ("seq", "set"):
+            out.append((f"wide-{kind}-{n}", (kind, tuple(kids[i % 4] for i in range(n)))))
+            out.append((f"wide-{kind}-of-seq-{n}", (kind, tuple(("seq", (("int", i),)) for i in range(n)))))
+    for depth in (101, 150, 300):
+        for kind in ("seq", "set", "mix"):
+            tr: t.Any = ("int", 7)
+            for i in range(depth):
+                tr = ("seq" if kind == "seq" or (kind == "mix" and i % 2) else "set", (tr,))
+            out.append((f"deep-{kind}-{depth}", tr))
+    return out
+
+
 # ---- driver -------------------------------------------------------------------------------
 ALPHA6 = [0x00, 0x01, 0x7F, 0x80, 0xFE, 0xFF]
 _CFG: t.Dict[str, t.Any] = {}
@@ -334,6 +400,25 @@ def _work(job: t.Tuple[str, int, int]) -> evid.Local:
         for num in range(0, 37):
             for cons in (False, True):
                 rec(check_tag(0, cons, num), {"fam": "tag", "cls": 0, "num": str(num), "constructed": cons}, 3)
+                rec(check_tag(0, cons, num, b""), {"fam": "tag", "cls": 0, "num": str(num), "constructed": cons, "content": ""}, 3)
+        for cls in (1, 2, 3):
+            for num in (0, 1, 30, 31, 127, 128):
+                for cons in (False, True):
+                    rec(check_tag(cls, cons, num, b""), {"fam": "tag", "cls": cls, "num": str(num), "constructed": cons, "content": ""}, 3)
+    elif fam == "push-tags":
+        for method in ("push_sequence", "push_set", "push_sequence_of", "push_set_of"):
+            for cls in (0, 1, 2, 3):
+                for num in (0, 3, 16, 17, 30, 31, 128, 16384):
+                    if cls == 0 and num > 36:
+                        continue
+                    for cons in (False, True):
+                        rec(check_push_tag(method, cls, cons, num), {"fam": "push-tag", "method": method, "cls": cls, "num": str(num), "constructed": cons}, 3)
+    elif fam == "big-shapes":
+        for name, tr in big_shapes():
+            rec(check_tree(tr), {"fam": "big-shape", "name": name}, 2)
+        for n in (101, 300, 2000):
+            rec(check_forest([("seq", (("int", i),)) if i % 2 else ("set", ()) for i in range(n)]), {"fam": "forest", "n": n}, 2)
+            rec(check_forest([("int", i) for i in range(n)]), {"fam": "forest-prim", "n": n}, 2)
     elif fam == "lengths":
         for n in range(lo, hi):
             rec(check_length(n), {"fam": "len", "n": n}, 3)
@@ -378,7 +463,7 @@ def run(ctx: evid.Ctx) -> None:
     for ln in range(1, (8 if thorough else 6) + 1):
         jobs += [("content-alpha", ln, first) for first in ALPHA6]
     jobs += [("tags", a, b) for a, b in par.split(len(_CFG["tagnums"]), 32)]
-    jobs += [("tags-universal", 0, 0), ("tags-long", 0, 0)]
+    jobs += [("tags-universal", 0, 0), ("tags-long", 0, 0), ("push-tags", 0, 0), ("big-shapes", 0, 0)]
     jobs += [("lengths", a, b) for a, b in par.split(70001 if thorough else 1101, 64)]
     jobs += [("lengths-big", 0, 0), ("bool", 0, 0), ("octets-dom", 0, 0)]
     jobs += [("octets", a, b) for a, b in par.split(65536, 16)]
@@ -420,7 +505,15 @@ def replay(case: t.Dict[str, t.Any], key: t.Optional[str] = None) -> t.Tuple[boo
     elif fam in ("content", "content-hdr"):
         r = check_int_content(bytes.fromhex(case["hex"]), fam == "content-hdr")
     elif fam == "tag":
-        r = check_tag(case["cls"], case["constructed"], int(case["num"]))
+        r = check_tag(case["cls"], case["constructed"], int(case["num"]), b"v" if "content" not in case else bytes.fromhex(case["content"]))
+    elif fam == "push-tag":
+        r = check_push_tag(case["method"], case["cls"], case["constructed"], int(case["num"]))
+    elif fam == "big-shape":
+        r = check_tree(dict(big_shapes())[case["name"]])
+    elif fam == "forest":
+        r = check_forest([("seq", (("int", i),)) if i % 2 else ("set", ()) for i in range(case["n"])])
+    elif fam == "forest-prim":
+        r = check_forest([("int", i) for i in range(case["n"])])
     elif fam == "len":
         r = check_length(case["n"])
     elif fam == "taglen":
